@@ -227,7 +227,7 @@ class TestResult(unittest.TestResult):
 
     def stopTest(self, test):
         # NOTE: In Python 3.12.1 skipped tests may not call startTest()
-        if self._tags is not None:
+        if self._tags.parent is not None:
             self._tags = self._tags.parent
         super().stopTest(test)
 
@@ -1595,7 +1595,7 @@ class ExtendedToOriginalDecorator:
 
     def stopTest(self, test):
         # NOTE: In Python 3.12.1 skipped tests may not call startTest()
-        if self._tags is not None:
+        if self._tags.parent is not None:
             self._tags = self._tags.parent
         return self.decorated.stopTest(test)
 
@@ -1659,7 +1659,7 @@ class ExtendedToStreamDecorator(CopyStreamResult, StreamSummary, TestControl):
 
     def stopTest(self, test):
         # NOTE: In Python 3.12.1 skipped tests may not call startTest()
-        if self._tags is not None:
+        if self._tags.parent is not None:
             self._tags = self._tags.parent
 
     def addError(self, test, err=None, details=None):
